@@ -64,19 +64,19 @@ CHECKS = {
             "bounded run-time contract check against an executable search spec",
             "DESIGN.md §6 C07"),
     "C08": ("exploration",
-            BOUNDED % "08" + "independent renderer -> parse round trip for all short segment sequences in both notations, canonical fixed point, ==, append/pop.  "
+            BOUNDED % "08" + "independent renderer -> parse round trip for all short segment sequences in both notations, canonical fixed point, ==, append/pop, also along the history parse -> switch the notation -> compare / extend.  "
             "Deductive part (shared with C14): ensure_escaped / escape_path_section / infer_separator / term __str__ proved total with their type post-conditions.",
             "bounded round-trip check; totality of the stringifier functions proved by pyvc",
             "DESIGN.md §6 C08"),
     "C09": ("exploration",
             BOUNDED % "09" + "deep snapshot before/after every read call incl. collector expressions (the same hash collected twice included); creation of missing "
-            "tails against a plain-data model (padding length and padding-node identity).  Deductive part: the creation driver _get_optional_nodes is verified for "
+            "tails against a plain-data model (padding length and padding-node identity); anchor names the notation escapes, fed back as the library reports them.  Deductive part: the creation driver _get_optional_nodes is verified for "
             "safety under C15 with its heap writes modelled; its functional post-condition (exactly the missing tail) is not discharged.",
             "bounded run-time contract check (snapshot purity, creation model)",
             "DESIGN.md §6 C09"),
     "C10": ("exploration",
             BOUNDED % "10" + "anchor conflicts: all pairs over the name pool {x, y} x 4 policies x merge policies, dump + strict reload (exhaustive small space); "
-            "anchored scalars with falsy values inside sequences; the policy taken from the command line or from the INI file's [defaults] (yaml-merge "
+            "anchored scalars with falsy values inside sequences; the policy taken from the command line or from the INI file's [defaults], the right-hand document as a file, as `-` or waiting on STDIN (yaml-merge "
             "in-process).  Deductive part (proved, 50 VCs): Merger._calc_unique_anchor (the rename loop ends with a name no document uses) and "
             "MergerConfig.anchor_merge_mode (command line > [defaults] > stop).  The conflict resolution itself is bounded only.",
             "bounded run-time contract check, exhaustive over the small anchor space",
@@ -118,7 +118,7 @@ CHECKS = {
             "site); on top of that the functional clauses listed under C01 / C02 / C12.  BOUNDED only: the three collector set operations, the four keyword "
             "scans max / min / unique / distinct, the ruamel node builders (exception-type monitor over documents x generated paths, required and optional "
             "mode, every string of length <= 4 over the syntax alphabet that the parser accepts, and paths that climb back with parent() and create a member "
-            "in a collection that is still being iterated).",
+            "in a hash, set or list that is still being iterated; every library call is bounded in time and a call that does not return is a witness).",
             "contract-based deductive verification of the evaluator handlers (pyvc, z3+cvc5) + bounded exception-type monitor for the functions outside the subset",
             "DESIGN.md §6 C15"),
     "C16": ("exploration",
@@ -149,7 +149,7 @@ CHECKS = {
             "contract-based deductive verification of the multi-document drivers (pyvc: loop invariants, per-iteration post-conditions, ghost call events) modulo C05",
             "DESIGN.md §6 C18"),
     "C19": ("exploration",
-            BOUNDED % "19" + "eyaml-rotate-keys with a deterministic stand-in eyaml executable over documents mixing plaintext and secrets; is_eyaml_value exhaustively "
+            BOUNDED % "19" + "eyaml-rotate-keys with a deterministic stand-in eyaml executable over documents mixing plaintext (incl. timestamps with UTC offsets, compared by what the text denotes) and secrets; is_eyaml_value exhaustively "
             "over strings <= 7 from {space, newline, E, N, C, [, x}.",
             "bounded run-time contract check with a stand-in eyaml executable",
             "DESIGN.md §6 C19"),
